@@ -116,8 +116,15 @@ CATALOGUE = [
     ("isel", "keeps", None, lambda c: c.a.isel(**{c.last: 0})),
     ("nloc", "keeps", None, lambda c: c.a.nloc[float(c.a.axes[0].values[0]) + 0.1]),
     ("take keepdims", "keeps", None, lambda c: c.a.take(c.lab(0), axis=0, keepdims=True)),
-    ("getitem N-d mask", None, None, lambda c: c.a[c.arg(c.a.values > np.nanmean(c.a.values))]),
-    ("compress", None, None, lambda c: c.a.compress(c.arg(c.a.values > np.nanmean(c.a.values)))),
+    ("getitem N-d mask", "keeps", None, lambda c: c.a[c.arg(c.a.values > np.nanmean(c.a.values))]),
+    ("getitem N-d DimArray mask", "keeps", None, lambda c: c.a[c.arg(c.a > np.nanmean(c.a.values))]),
+    ("compress", "keeps", None, lambda c: c.a.compress(c.arg(c.a.values > np.nanmean(c.a.values)))),
+    # an index that selects everything is still an index
+    ("getitem [:]", "keeps", lambda c: list(c.a.dims), lambda c: c.a[:]),
+    ("getitem [...]", "keeps", lambda c: list(c.a.dims), lambda c: c.a[...]),
+    ("getitem all full slices", "keeps", lambda c: list(c.a.dims), lambda c: c.a[tuple(slice(None) for _ in c.a.dims)]),
+    ("take full slice", "keeps", lambda c: list(c.a.dims), lambda c: c.a.take(slice(None), axis=c.last)),
+    ("ix [:]", "keeps", lambda c: list(c.a.dims), lambda c: c.a.ix[:]),
     ("take_axis label", "keeps", lambda c: list(c.a.dims), lambda c: c.a.take_axis(c.arg([c.lab(0), c.lab(0, 1)]), axis=0)),
     ("take_axis position", "keeps", lambda c: list(c.a.dims), lambda c: c.a.take_axis(c.arg(np.array([c.k % c.a.shape[0], 0])), axis=0, indexing="position")),
     ("compress_axis", "keeps", lambda c: list(c.a.dims), lambda c: c.a.compress_axis(c.arg(_mask_first(c)), axis=0)),
@@ -129,6 +136,7 @@ CATALOGUE = [
     ("put mask inplace=False", None, None, lambda c: c.a.put(c.arg(c.a.values > np.nanmean(c.a.values)), 0.0, inplace=False)),
     ("fillna", None, None, lambda c: c.a.fillna(0.0)),
     ("setna", None, None, lambda c: c.a.setna(c.a.values.ravel()[0])),
+    ("setna value, na (positional)", None, None, lambda c: c.a.setna(c.a.values.ravel()[0], -1)),
     ("setna list", None, None, lambda c: c.a.setna(c.arg([c.a.values.ravel()[0], c.a.values.ravel()[-1]]))),
     ("setna DimArray mask, value", None, None, lambda c: c.a.setna([c.arg(c.a > np.nanmean(c.a.values)), c.a.values.ravel()[0]])),
     ("setna value, ndarray mask, list", None, None, lambda c: c.a.setna((c.arg(c.a.values > np.nanmean(c.a.values)), c.a.values.ravel()[0], [c.a.values.ravel()[-1]]))),
